@@ -11,6 +11,36 @@ type Pool struct {
 
 	mu    sync.Mutex
 	items []any
+	known bool
+}
+
+var (
+	poolsMu  sync.Mutex
+	allPools []*Pool
+)
+
+// ResetPools empties every pool: engines that execute many runs in one process start each run
+// with cold pools, so that a run does not depend on the runs before it (and replays alone).
+func ResetPools() {
+	poolsMu.Lock()
+	ps := append([]*Pool(nil), allPools...)
+	poolsMu.Unlock()
+	for _, p := range ps {
+		p.mu.Lock()
+		clear(p.items)
+		p.items = p.items[:0]
+		p.mu.Unlock()
+	}
+}
+
+// register must be called with p.mu held.
+func (p *Pool) register() {
+	if !p.known {
+		p.known = true
+		poolsMu.Lock()
+		allPools = append(allPools, p)
+		poolsMu.Unlock()
+	}
 }
 
 func (p *Pool) Get() any {
@@ -34,6 +64,7 @@ func (p *Pool) Put(x any) {
 		return
 	}
 	p.mu.Lock()
+	p.register()
 	if len(p.items) < 32 {
 		p.items = append(p.items, x)
 	}
